@@ -32,6 +32,9 @@ def main(tier, replay=None):
                                        kinds=["Node", "Node", "Node", "Box", "Box", "Array", "Tuple", "Table", "Ref"])
                   for _ in range(n)], "random/boxes")
     camp.run([], [gcgen.random_program(rng, nobj=40, nops=250) for _ in range(n // 2)], "random/mixed")
+    # thousands of objects, a fraction kept through a rooted Array of Ref: the registry passes through many of its sizes
+    camp.run([], [["reset", "bulk %d %d" % (m, k)] for (m, k) in (((700, 3), (3000, 7), (12000, 2)) if quick else ((300, 1), (700, 3), (3000, 7), (12000, 2), (40000, 5), (60000, 11)))],
+             "bulk", sample=False)
     chk.cov["rule"] = ("an execution = one mutator program in its own process, including the teardown at exit; TLC checks per "
                        "event that destructors ran at most once per object, that del finalised at once, that reclaimed Nodes "
                        "were destructed, and on the post-exit event that only undeleted root/raw objects remain; distinct = program")
